@@ -168,6 +168,10 @@ def run_case(ctx, g, rng):
         elif n > 1 and istyle == "sorted":
             df = df.sort_values(names[col], kind="stable")
         S.counters[f"wl:frame-index:{istyle}"] += 1
+        dt = rng.choice(["default", "default", "object", "string", "category"])
+        if dt != "default":
+            df[names[col]] = df[names[col]].astype(dt)  # the column's storage type is not the data's business
+        S.counters[f"wl:column-dtype:{dt}"] += 1
         kw = {"strict": strict, "passthrough": pt}
         if meth in ("pd_compress", "pd_expand"):
             kw["ambiguous"] = amb
